@@ -386,6 +386,32 @@ def corpus_cases(scratch):
         ('member-name-dash', {MAIN: H + mini3 + '                - a-b: {field-type: {class: uint, size: 8}}\n'}, 3,
          '=cpe'),
         ('member-name-dash-unvalidated', {MAIN: H + mini3 + '                - a-b: 5\n'}, 3, '=cpe'),
+        ('member-name-dash-unvalidated-with-aliases',
+         {MAIN: T3 + '    $field-type-aliases: {u: {class: uint, size: 8}}\n    data-stream-types: {d: {event-record-types: {e: '
+                     '{payload-field-type: {class: struct, members: [{a-b: 5}]}}}}}\n'}, 3, '=cpe'),
+        ('extra-member-name-dash-unvalidated-with-aliases',
+         {MAIN: T3 + '    $field-type-aliases: {u: {class: uint, size: 8}}\n    data-stream-types:\n      d:\n'
+                     '        packet-context-field-type-extra-members: [{a-b: 5}]\n        event-record-types: {e: ' + PL + '}\n'}, 3, '=cpe'),
+        ('include-path-with-nul', {MAIN: T3.replace('native-byte-order: le', '$include: ["std\\0int.yaml"]\n    native-byte-order: le') + DST1}, 3, '=cpe'),
+        ('python-apply-exit', {MAIN: H + 'trace: !!python/object/apply:builtins.exit [0]\n'}, 3, '=cpe'),
+        ('python-apply-exit-v2', {MAIN: "version: '2.2'\nmetadata: !!python/object/apply:builtins.exit [0]\n"}, 2, '=cpe'),
+        ('dynamic-array-length-member-collision',
+         {MAIN: H + mini3 + '                - foo: {field-type: {class: dynamic-array, element-field-type: {class: uint, size: 8}}}\n'
+                            '                - __foo_len: {field-type: {class: uint, size: 8}}\n'}, 3, '=cpe'),
+        ('dynamic-array-length-member-collision-reversed',
+         {MAIN: H + mini3 + '                - __foo_len: {field-type: {class: uint, size: 8}}\n'
+                            '                - foo: {field-type: {class: dynamic-array, element-field-type: {class: uint, size: 8}}}\n'}, 3, '=cpe'),
+        ('extra-member-timestamp-end-without-clock',
+         {MAIN: T3 + '    data-stream-types:\n      d:\n        packet-context-field-type-extra-members:\n'
+                     '          - timestamp_end: {field-type: {class: uint, size: 8}}\n        event-record-types: {e: ' + PL + '}\n'}, 3, None),
+        ('extra-member-timestamp-begin-without-clock',
+         {MAIN: T3 + '    data-stream-types:\n      d:\n        packet-context-field-type-extra-members:\n'
+                     '          - timestamp_begin: {field-type: {class: uint, size: 8}}\n        event-record-types: {e: ' + PL + '}\n'}, 3, None),
+        ('extra-member-seq-num-feature-off',
+         {MAIN: T3 + '    data-stream-types:\n      d:\n        $features: {packet: {sequence-number-field-type: false}}\n'
+                     '        packet-context-field-type-extra-members:\n'
+                     '          - packet_seq_num: {field-type: {class: static-array, length: 2, element-field-type: {class: uint, size: 8}}}\n'
+                     '        event-record-types: {e: ' + PL + '}\n'}, 3, None),
         ('member-keyword-int', {MAIN: H + mini3 + '                - int: {field-type: {class: uint, size: 8}}\n'}, 3, None),
         ('yaml-complex-key', {MAIN: '[a]: 1\n'}, 2, '=cpe'),
         ('yaml-complex-key-v3', {MAIN: H + '{a: 1}: 1\n'}, 3, '=cpe'),
@@ -413,13 +439,13 @@ def corpus_cases(scratch):
         ('recursive-alias-map', {MAIN: "version: '2.2'\nmetadata: &m {trace: *m, streams: *m}\n"}, 2, None),
         ('recursive-alias-map-v3', {MAIN: H + 'trace: &t\n  type: *t\n'}, 3, None),
         ('merge-key-scalar', {MAIN: "version: '2.2'\nmetadata:\n  <<: 5\n"}, 2, None),
-        ('python-name', {MAIN: "version: '2.2'\nmetadata: !!python/name:os.getcwd\n"}, 2, None),
-        ('python-apply-harmless', {MAIN: "version: '2.2'\nmetadata: !!python/object/apply:os.getcwd []\n"}, 2, None),
+        ('python-name', {MAIN: "version: '2.2'\nmetadata: !!python/name:os.getcwd\n"}, 2, '=cpe'),
+        ('python-apply-harmless', {MAIN: "version: '2.2'\nmetadata: !!python/object/apply:os.getcwd []\n"}, 2, '=cpe'),
         ('python-apply-mkdir-in-scratch',
-         {MAIN: "version: '2.2'\nmetadata: !!python/object/apply:os.mkdir ['%s']\n" % pwn}, 2, None),
+         {MAIN: "version: '2.2'\nmetadata: !!python/object/apply:os.mkdir ['%s']\n" % pwn}, 2, '=cpe'),
         ('python-tuple-key', {MAIN: "version: '2.2'\n? !!python/tuple [1, 2]\n: 3\n"}, 2, None),
-        ('python-object-new', {MAIN: H + 'trace: !!python/object/new:collections.OrderedDict []\n'}, 3, None),
-        ('python-module', {MAIN: "version: '2.2'\nmetadata: !!python/module:os\n"}, 2, None),
+        ('python-object-new', {MAIN: H + 'trace: !!python/object/new:collections.OrderedDict []\n'}, 3, '=cpe'),
+        ('python-module', {MAIN: "version: '2.2'\nmetadata: !!python/module:os\n"}, 2, '=cpe'),
         ('yaml-set', {MAIN: "version: '2.2'\nmetadata: !!set {a, b}\n"}, 2, None),
         ('yaml-omap', {MAIN: "version: '2.2'\nmetadata: !!omap [a: 1, b: 2]\n"}, 2, None),
         ('yaml-binary', {MAIN: "version: '2.2'\nmetadata: !!binary aGVsbG8=\n"}, 2, None),
@@ -1313,6 +1339,8 @@ def run(ctx):
         'wall_s': round(time.time() - t0, 1),
     })
     if executed:
+        ctx.violation('C10: a `!!python/object/apply:os.mkdir` tag in a configuration file was EXECUTED while loading (regression of the '
+                      'repaired defect 737aacc: _yaml_load must use the safe loader)', {'created': pwn})
         ctx.notes.append('C10 impl: _yaml_load uses the unsafe yaml.Loader: a `!!python/object/apply:os.mkdir` tag in a '
                          'configuration file was EXECUTED while loading (harmless directory inside the scratch directory)')
 
